@@ -31,6 +31,10 @@ Inductive case :=
 | CSvc (self_ : addr) (h : list (op * N)) (dump : list (addr * (option Z * bool * Z)))
 (* store-only history; per cheque (class, returned amount or 0); final dump *)
 | CStore (self_ : addr) (h : list (signed * (N * Z))) (dump : list (addr * option Z))
+(* service history [h1], then a restart: new process + Init with the chain reporting [chain] (TransAmount(issuer, self))
+   and listing [lists], then history [h2]; per op the observed class; final dump as in CSvc *)
+| CSvcR (self_ : addr) (h1 : list (op * N)) (chain : list (addr * Z)) (lists : list addr) (h2 : list (op * N))
+        (dump : list (addr * (option Z * bool * Z)))
 (* concurrent deliveries through the service over a gated state store: sequential registrations [pre]; one list of
    deliveries per goroutine; the order in which the gate granted the store's Get (false) / Put (true) of the
    last-received-cheque entry, per goroutine index; observed class of every delivery per goroutine; then a
@@ -43,6 +47,13 @@ Definition opt_last (st : store) (a : addr) : option Z := option_map (fun l => p
 Definition svc_model (self_ : addr) (h : list op) (univ : list addr) :=
   let '(rs, s') := run (init self_) h in
   (map class rs,
+   map (fun a => (a, (opt_last (last_recv s') a,
+                      match get a (credited s') with Some _ => true | None => false end,
+                      credited_of s' a))) univ).
+Definition svcr_model (self_ : addr) (h1 : list op) (chain : list (addr * Z)) (lists : list addr) (h2 : list op) (univ : list addr) :=
+  let '(rs1, s1) := run (init self_) h1 in
+  let '(rs2, s') := run (restore s1 chain lists) h2 in
+  (map class rs1, map class rs2,
    map (fun a => (a, (opt_last (last_recv s') a,
                       match get a (credited s') with Some _ => true | None => false end,
                       credited_of s' a))) univ).
@@ -128,6 +139,9 @@ Definition check_case (c : case) : bool :=
       let '(out, d) := store_model self_ (map fst h) (map fst dump) in
       list_eqb (pair_eqb N.eqb Z.eqb) out (map snd h)
       && list_eqb (pair_eqb N.eqb (option_eqb Z.eqb)) d dump
+  | CSvcR self_ h1 chain lists h2 dump =>
+      let '(c1, c2, d) := svcr_model self_ (map fst h1) chain lists (map fst h2) (map fst dump) in
+      list_eqb N.eqb c1 (map snd h1) && list_eqb N.eqb c2 (map snd h2) && list_eqb dump_eqb d dump
   | CConc self_ pre progs events obs post dump =>
       match conc_model self_ pre progs events (map fst post) (map fst dump) with
       | None => false
@@ -146,6 +160,10 @@ Definition explain_case (c : case) :=
   | CStore self_ h dump =>
       let '(out, d) := store_model self_ (map fst h) (map fst dump) in
       (out, map (fun x => (fst x, (snd x, 0%Z))) d, map snd h, map (fun x => (fst x, (snd x, 0%Z))) dump)
+  | CSvcR self_ h1 chain lists h2 dump =>
+      let '(c1, c2, d) := svcr_model self_ (map fst h1) chain lists (map fst h2) (map fst dump) in
+      (map (fun x => (x, 0%Z)) (c1 ++ c2), map (fun x => (fst x, (fst (fst (snd x)), snd (snd x)))) d,
+       map (fun x => (snd x, 0%Z)) (h1 ++ h2), map (fun x => (fst x, (fst (fst (snd x)), snd (snd x)))) dump)
   | CConc self_ pre progs events obs post dump =>
       match conc_model self_ pre progs events (map fst post) (map fst dump) with
       | None => ([(999, 0%Z)], [], map (fun x => (x, 0%Z)) (concat obs), map (fun x => (fst x, (fst (fst (snd x)), snd (snd x)))) dump)
